@@ -246,11 +246,16 @@ fn simulate(c: &ReadCase) -> (Vec<(Vec<u8>, Vec<u8>)>, Vec<(Vec<u8>, Vec<u8>)>) 
     // In an eighth of the read sets (k <= 41) one split k-mer occurs more than 65536 times: poly-G reads, as
     // real runs contain them. It lies far above the tabulated range and must not show up in any row.
     if c.read_seed % 8 == 5 && c.k <= 41 {
+        // 65536 + t occurrences, t = 3..22: a counter that wraps at 2^16 would land inside the table
         let per_read = 150 - c.k + 1;
-        let n = 66_000 / per_read + 3;
+        let total = 65_536 + 3 + (c.read_seed / 8 % 20) as usize;
+        let (n, rem) = (total / per_read, total % per_read);
         for i in 0..n {
             let r = (vec![b'G'; 150], vec![b'I'; 150]);
             if i % 2 == 0 { f1.push(r) } else { f2.push(r) }
+        }
+        if rem > 0 {
+            f2.push((vec![b'G'; c.k - 1 + rem], vec![b'I'; c.k - 1 + rem]));
         }
     }
     // in a third of the read sets a file starts with a read that holds no split k-mer at all (a failed
